@@ -248,6 +248,7 @@ class TlsExtensionServerNameClient(TlsExtensionParsed):
         server_name = bytes(bytearray(parser['server_name']))
         try:
             host_name = six.ensure_text(server_name, 'idna')
+            six.ensure_binary(host_name, 'idna')  # a label longer than 63 bytes decodes but cannot be encoded
         except UnicodeError as e:
             six.raise_from(InvalidValue(server_name, cls, 'host_name'), e)
 
@@ -256,7 +257,10 @@ class TlsExtensionServerNameClient(TlsExtensionParsed):
     def compose(self):
         composer = ComposerBinary()
 
-        idna_encoded_host_name = six.ensure_binary(self.host_name, 'idna')
+        try:
+            idna_encoded_host_name = six.ensure_binary(self.host_name, 'idna')
+        except UnicodeError as e:
+            six.raise_from(InvalidValue(self.host_name, type(self), 'host_name'), e)
 
         composer.compose_numeric(3 + len(idna_encoded_host_name), 2)
         composer.compose_numeric(self.name_type, 1)
